@@ -62,6 +62,22 @@ class StrV:
         self.cap = len(self.c)
 
 
+class RealV:
+    """A REAL value as an exact fraction num/den (den != 0) of two W-bit integers.
+
+    Only what the ORMs need: SQLAlchemy renders OData `div` as `x / (y + 0.0)`, i.e. SQLite REAL division.  Doubles
+    are exact on the small quotients that occur inside the bounds (|operands| <= 8, a few operations), so comparing
+    fractions by cross-multiplication agrees with SQLite; this is re-checked against the real sqlite3 on every run
+    (validate.py) and on every witness (replay)."""
+    __slots__ = ("null", "num", "den")
+    kind = "real"
+
+    def __init__(self, null, num, den):
+        self.null = null
+        self.num = num
+        self.den = den
+
+
 class NullV:
     """The untyped NULL literal; adapts to the type of whatever it meets."""
     __slots__ = ()
@@ -121,6 +137,8 @@ def sconst(text: str) -> StrV:
 def null_of(kind: str) -> Value:
     if kind == "int":
         return IntV(TRUE, bv(0))
+    if kind == "real":
+        return RealV(TRUE, bv(0), bv(1))
     if kind == "bool":
         return BoolV(TRUE, FALSE)
     return StrV(TRUE, lv(0), [])
@@ -391,6 +409,9 @@ def has_char(x: StrV, chars: Sequence[int]):
 # ------------------------------------------------------------------ generic helpers
 def v_ite(c, x: Value, y: Value) -> Value:
     x, y = unify(x, y)
+    if "real" in (x.kind, y.kind) and x.kind != "str" and y.kind != "str":
+        x, y = to_real(x), to_real(y)
+        return RealV(z3.If(c, x.null, y.null), z3.If(c, x.num, y.num), z3.If(c, x.den, y.den))
     if x.kind != y.kind:
         if {x.kind, y.kind} == {"int", "bool"}:
             x, y = to_int(x), to_int(y)
@@ -402,9 +423,18 @@ def v_ite(c, x: Value, y: Value) -> Value:
     return cls(z3.If(c, x.null, y.null), z3.If(c, x.val, y.val))
 
 
+def to_real(x: Value) -> "RealV":
+    if x.kind == "real":
+        return x
+    i = to_int(x)
+    return RealV(i.null, i.val, bv(1))
+
+
 def to_int(x: Value) -> IntV:
     if x.kind == "null":
         return null_of("int")
+    if x.kind == "real":
+        return IntV(x.null, x.num / x.den)       # CAST(real AS INTEGER) truncates toward zero
     if x.kind == "int":
         return x
     if x.kind == "bool":
@@ -415,6 +445,8 @@ def to_int(x: Value) -> IntV:
 def to_bool(x: Value) -> BoolV:
     if x.kind == "null":
         return null_of("bool")
+    if x.kind == "real":
+        return BoolV(x.null, x.num != 0)
     if x.kind == "bool":
         return x
     if x.kind == "int":
@@ -447,6 +479,9 @@ def decode(model, v: Value):
         return None
     if v.kind == "int":
         return model.eval(v.val, True).as_signed_long()
+    if v.kind == "real":
+        from fractions import Fraction
+        return Fraction(model.eval(v.num, True).as_signed_long(), model.eval(v.den, True).as_signed_long())
     if v.kind == "bool":
         return bool(z3.is_true(model.eval(v.val, True)))
     n = model.eval(v.len, True).as_long()
